@@ -206,7 +206,8 @@ def shards(tier, seed):
     out = []
     for n in LONG_LENS[tier]:
         out.append({"kind": "long", "n": n, "variant": variant, "embed": embed})
-    for sub in ("flavours_banded", "flavours_seeded", "library", "mirror", "alias", "argument_types"):
+    for sub in ("flavours_banded", "flavours_seeded", "library", "mirror", "alias", "argument_types",
+                "palette_embeddings", "palette_variants", "palette_combos", "identity", "resize", "derived"):
         out.append({"kind": "audit", "sub": sub, "variant": variant, "embed": embed})
     per = {"banded": 12, "gapped": 24, "ungapped": 75}
     for kind in ("banded", "gapped", "ungapped"):
@@ -1327,6 +1328,162 @@ def run_audit(shard, ctx):
         audit_alias(ctx, shard)
     elif sub == "argument_types":
         audit_argument_types(ctx, shard)
+    elif sub.startswith("palette_"):
+        for env in palette_envs(sub[len("palette_"):]):
+            _audit_all_functions(ctx, env, 2, AUDIT_GAPS)
+    elif sub == "identity":
+        audit_identity(ctx, shard)
+    elif sub == "resize":
+        audit_resize(ctx, shard)
+    elif sub == "derived":
+        audit_derived(ctx, shard)
+
+
+# ---------------------------------------------------------------------------
+# second dimension audit
+# ---------------------------------------------------------------------------
+def palette_envs(which):
+    """B: every value a VERIF_SEED could select (code embeddings, matrix variants) at shallow depth with every seed;
+    C: matrices that combine two awkward features."""
+    from mc.models import align_inputs as I
+
+    envs = []
+    if which == "embeddings":
+        for e in range(4):
+            envs.append(I.Env(2, 2, "asym", 0, e))
+            envs.append(I.Env(2, 2, "asym", 1, e, "uint16", "uint16"))
+        for e in (0, 1):
+            envs.append(I.Env(2, 3, "rect", e, e, "uint16", "uint8"))   # wide codes AND different alphabets
+    elif which == "variants":
+        for fam in ("std", "allneg", "asym", "large", "zero", "negident"):
+            for v in range(3):
+                envs.append(I.Env(2, 2, fam, v, v))
+        for v in range(3):
+            envs.append(I.Env(2, 3, "rect", v, v + 1))
+    else:
+        for fam in ("asymneg", "largeneg", "asymlarge", "zerorow"):
+            for v in range(3):
+                envs.append(I.Env(2, 2, fam, v, v))
+    return envs
+
+
+def audit_identity(ctx, shard):
+    """A: returned alignments are new objects with their own `sequences` lists; re-binding edits of one result do
+    not reach the other results or the inputs."""
+    from mc.models import align_audit as AU
+    from mc.models import align_inputs as I
+
+    env = I.Env(2, 2, "zero", shard["variant"], shard["embed"])
+    for l1 in I.sequences(2, 3, 1):
+        for l2 in I.sequences(2, 2, 1):
+            for gap in AUDIT_GAPS:
+                for name, (f, args, kw) in _three_calls(env, l1, l2, gap).items():
+                    if kw.get("score_only"):
+                        continue
+                    if f.__name__ == "align_local_ungapped":
+                        kw = {}
+                    ctx.ev(2, 1)
+                    site = f.__name__
+                    cls = "%s|%s" % (name, I.gap_class(gap))
+                    case = {"kind": "identity", **env.describe(), "s1": list(l1), "s2": list(l2),
+                            "gap": I.gap_json(gap), "call": name}
+                    s1, s2 = env.seq(1, l1), env.seq(2, l2)
+                    before = AU.snapshot(env, l1, l2)
+                    res = f(s1, s2, env.matrix, *args, **kw)
+                    ref = AU.result_key(res)
+                    items = res if isinstance(res, list) else [res]
+                    if len({id(a) for a in items}) != len(items) or len({id(a.sequences) for a in items}) != len(items):
+                        ctx.violation("%s|results_share_object|%s" % (site, cls), "two returned alignments are the same "
+                                      "object / share their `sequences` list", case)
+                        continue
+                    first = items[0]
+                    first.sequences.append("edited")
+                    first.sequences[0] = None
+                    first.trace = None
+                    first.score = None
+                    rest = items[1:]
+                    if not all(len(a.sequences) == 2 and a.sequences[0] is s1 and a.sequences[1] is s2 for a in rest) \
+                            or (rest and AU.result_key(rest) != ref[1:]):
+                        ctx.violation("%s|edit_of_one_result_reaches_another|%s" % (site, cls), "re-binding edits of the "
+                                      "first returned alignment changed another one", case)
+                    elif AU.snapshot(env, l1, l2) != before:
+                        ctx.violation("%s|edit_of_result_reaches_input|%s" % (site, cls), "re-binding edits of a returned "
+                                      "alignment changed an input", case)
+                    elif AU.result_key(f(s1, s2, env.matrix, *args, **kw)) != ref:
+                        ctx.violation("%s|second_call_differs|%s" % (site, cls), "the same call gives another result "
+                                      "after a result was edited", case)
+                    ctx.outcome(("identity", name, len(items)))
+
+
+RESIZE_PATH = [(0, 1), (0, 1, 1), (1,), (1, 0, 1), (0, 0), (1, 1, 0, 1), (0,)]
+
+
+def audit_resize(ctx, shard):
+    """D: the same two Sequence objects get contents of other lengths (code / symbols setters) between calls."""
+    import biotite.sequence as bseq
+    import numpy as np
+
+    from mc.models import align_audit as AU
+    from mc.models import align_inputs as I
+
+    env = I.Env(2, 2, "asym", shard["variant"], shard["embed"])
+    s1, s2 = bseq.GeneralSequence(env.alph1), bseq.GeneralSequence(env.alph2)
+    for gap in AUDIT_GAPS:
+        for step, l1 in enumerate(RESIZE_PATH * 2):
+            l2 = RESIZE_PATH[(step * 3 + 1) % len(RESIZE_PATH)]
+            if step % 2:
+                s1.code = np.array(env.codes(1, l1), dtype=np.uint8)
+                s2.symbols = list(env.codes(2, l2))
+            else:
+                s1.symbols = list(env.codes(1, l1))
+                s2.code = np.array(env.codes(2, l2), dtype=np.uint8)
+            len(s1), str(s2), s1.get_symbol_frequency()
+            for name, (f, args, kw) in _three_calls(env, l1, l2, gap).items():
+                if f.__name__ == "align_local_ungapped":
+                    kw = {}
+                ctx.ev(2, 1)
+                case = {"kind": "resize", **env.describe(), "step": step, "s1": list(l1), "s2": list(l2),
+                        "gap": I.gap_json(gap), "call": name}
+                got = AU.result_key(f(s1, s2, env.matrix, *args, **kw))
+                want = AU.result_key(f(env.seq(1, l1), env.seq(2, l2), env.matrix, *args, **kw))
+                if got != want:
+                    ctx.violation("%s|reused_sequence_object_differs|%s" % (f.__name__, name), "a Sequence object that "
+                                  "held a sequence of another length before gives another result than a fresh one",
+                                  case, want if isinstance(want, int) else want[:2], got if isinstance(got, int) else got[:2])
+                ctx.outcome(("resize", name, step))
+
+
+def audit_derived(ctx, shard):
+    """E: derived sequences (slices, strided slices, fancy indexing, reverse, copy, +, symbols setter) through the
+    complete oracle; as_positional() matrix + sequences must give the results of the originals."""
+    from mc.models import align_audit as AU
+    from mc.models import align_inputs as I
+
+    for env in AU.derived_envs(shard["variant"], shard["embed"]):
+        _audit_all_functions(ctx, env, 2, AUDIT_GAPS[:1])
+    env = I.Env(2, 2, "asym", shard["variant"], shard["embed"])
+    for l1 in I.sequences(2, 3, 1):
+        for l2 in I.sequences(2, 3, 1):
+            pm, p1, p2 = env.matrix.as_positional(env.seq(1, l1), env.seq(2, l2))
+            for gap in AUDIT_GAPS:
+                for name, (f, args, kw) in _three_calls(env, l1, l2, gap).items():
+                    if f.__name__ == "align_local_ungapped":
+                        kw = {}
+                    ctx.ev(2, 1)
+                    case = {"kind": "derived", **env.describe(), "s1": list(l1), "s2": list(l2),
+                            "gap": I.gap_json(gap), "call": name}
+                    ref = AU.result_key(f(env.seq(1, l1), env.seq(2, l2), env.matrix, *args, **kw))
+                    try:
+                        got = AU.result_key(f(p1, p2, pm, *args, **kw))
+                    except Exception as e:  # noqa: BLE001
+                        ctx.violation("%s|positional_exception_%s|%s" % (f.__name__, type(e).__name__, name),
+                                      "as_positional() output refused", case, None, str(e)[:100])
+                        continue
+                    if got != ref:
+                        ctx.violation("%s|positional_result_differs|%s" % (f.__name__, name), "aligning the positional "
+                                      "equivalents of as_positional() gives another result", case,
+                                      ref if isinstance(ref, int) else ref[:2], got if isinstance(got, int) else got[:2])
+                    ctx.outcome(("positional", name))
 
 
 # ---------------------------------------------------------------------------
@@ -1442,9 +1599,10 @@ def replay(case, ctx):
         check_banded(ctx, env, tuple(case["s1"]), tuple(case["s2"]), tuple(case["band"]),
                      I.gap_from_json(case["gap"]), case["local"], 1000, either=True)
         return
-    if kind in ("mirror", "alias", "argtypes"):
+    if kind in ("mirror", "alias", "argtypes", "identity", "resize", "derived"):
         sh = {"variant": case["variant"], "embed": case["embed"]}
-        {"mirror": audit_mirror, "alias": audit_alias, "argtypes": audit_argument_types}[kind](ctx, sh)
+        {"mirror": audit_mirror, "alias": audit_alias, "argtypes": audit_argument_types, "identity": audit_identity,
+         "resize": audit_resize, "derived": audit_derived}[kind](ctx, sh)
         return
     from mc.models import align_audit as AU
 
